@@ -53,7 +53,7 @@ get_internal_body = Contract(
         Clause("GIB0", "result == ()", when=["no-internal", "body=0"]),
         Clause("GIB1", "(%s and result is intermediate_repr['_internal']['body']) or ((not %s) and result == ())" % (_M, _M),
                when=["body=1", "body=2"], note="the carried body iff name and type match the target, else an empty tuple"),
-        Clause("GIB-frame", "intermediate_repr == old_intermediate_repr", note="frame: the IR is not modified"),
+        Clause("GIB-frame", "unchanged(intermediate_repr, old_intermediate_repr)", note="frame: the IR is not modified"),
     ],
     canaries=["result == ()"],
 )
